@@ -38,14 +38,14 @@ abbrev Name := List Char
 
 inductive Err
   | blank | length | quote | invalid | exists | notExist | sheetIdx | group
-  | dupDefName | param | panic | gap
+  | dupDefName | param | panic | gap | defScope
   deriving DecidableEq, Repr
 
 def Err.tag : Err → String
   | .blank => "E_BLANK" | .length => "E_LENGTH" | .quote => "E_QUOTE" | .invalid => "E_INVALID"
   | .exists => "E_EXISTS" | .notExist => "E_NOTEXIST" | .sheetIdx => "E_SHEETIDX"
   | .group => "E_GROUP" | .dupDefName => "E_DUPDEFNAME" | .param => "E_PARAM"
-  | .panic => "PANIC" | .gap => "E_GAP"
+  | .panic => "PANIC" | .gap => "E_GAP" | .defScope => "E_DEFSCOPE"
 
 /-! ## names -/
 
@@ -502,6 +502,17 @@ def setDefinedName (s : St) (name : Nat) (scope : Name) : Except Err St :=
     if s.defs.any (fun d => d.loc == loc && d.name == name) then .error .dupDefName
     else .ok { s with defs := s.defs ++ [⟨name, loc⟩] }
 
+/-- `DeleteDefinedName{Name: "dn_<name>", Scope: scope}`: the first name with that (exact) name in the
+resolved scope is removed; an unresolvable scope or no such name is `ErrDefinedNameScope` -/
+def deleteDefinedName (s : St) (name : Nat) (scope : Name) : Except Err St :=
+  if !Facts.C16.deleteDefinedNameByScope then .error .gap else
+  match getDefinedNameScope s scope with
+  | .error _ => .error .defScope
+  | .ok loc =>
+    match idxOf? (fun d : DefName => d.loc == loc && d.name == name) s.defs with
+    | none => .error .defScope
+    | some i => .ok { s with defs := s.defs.eraseIdx i }
+
 /-- `SetCellInt(sheet, "A1", v)` -/
 def setCell (s : St) (n : Name) (v : Nat) : Except Err St :=
   match workSheetReader s n with
@@ -527,7 +538,8 @@ def observe (s : St) : St :=
 inductive Op
   | new (n : Name) | delete (n : Name) | copy (frm to : Int) | move (src tgt : Name)
   | rename (src tgt : Name) | visible (n : Name) (v vh : Bool) | active (i : Int)
-  | group (ns : List Name) | ungroup | defname (k : Nat) (scope : Name) | setcell (n : Name) (v : Nat)
+  | group (ns : List Name) | ungroup | defname (k : Nat) (scope : Name) | deldef (k : Nat) (scope : Name)
+  | setcell (n : Name) (v : Nat)
   | save | observe
   deriving Repr
 
@@ -557,6 +569,9 @@ def step (s : St) : Op → St × Option Err
     | .ok s' => (s', none)
     | .error e => (s, some e)
   | .defname k sc => match setDefinedName s k sc with
+    | .ok s' => (s', none)
+    | .error e => (s, some e)
+  | .deldef k sc => match deleteDefinedName s k sc with
     | .ok s' => (s', none)
     | .error e => (s, some e)
   | .setcell n v => match setCell s n v with
@@ -709,6 +724,7 @@ def step (b : Book) : Op → Book × Bool
     | none => (b, false)
   | .ungroup => (ungroup b, true)
   | .defname _ _ => (b, true)
+  | .deldef _ _ => (b, true)
   | .setcell n v => match setCell b n v with
     | some b' => (b', true)
     | none => (b, false)
